@@ -404,4 +404,61 @@ theorem go_signExtend (w : Nat) (hw1 : 1 ≤ w) (hw : w ≤ 64) (u : Nat) (hu : 
     have h3 : w > 0 := by omega
     simp [h, h2, h3]
 
+
+/-- the range arithmetic of BITCOUNT: `none` = nothing to count, else the first and last unit (byte or bit) -/
+def bitcountBounds (length start stop : Int) : Option (Int × Int) :=
+  let start := if start < 0 then length + start else start
+  let stop := if stop < 0 then length + stop else stop
+  if start ≥ length then none else
+  let start := if start < 0 then 0 else start
+  if stop < start then none else
+  some (start, if stop ≥ length then length - 1 else stop)
+
+/-- the range arithmetic of BITCOUNT as `fnBitCount` has it now: leaves early exactly when `bitcountBounds` says
+    there is nothing to count, and otherwise ends with the same first and last unit — for every pair of int64
+    arguments and every positive length -/
+theorem go_bitcountClamp (s e n : BitVec 64) (hn : 0 < n.toInt) :
+    (match Go.bitcountClamp s e n with
+     | (true, _, _) => none
+     | (false, a, z) => some (a.toInt, z.toInt)) = bitcountBounds n.toInt s.toInt e.toInt := by
+  have hs := BitVec.toInt_lt (x := s); have hs' := BitVec.le_toInt (x := s)
+  have he := BitVec.toInt_lt (x := e); have he' := BitVec.le_toInt (x := e)
+  have hn2 := BitVec.toInt_lt (x := n)
+  simp at hs hs' he he' hn2
+  generalize hS1 : (if BitVec.slt s 0#64 then n + s else s) = S1
+  generalize hE1 : (if BitVec.slt e 0#64 then n + e else e) = E1
+  have vS1 : S1.toInt = if s.toInt < 0 then n.toInt + s.toInt else s.toInt := by
+    rw [← hS1]; simp only [BitVec.slt]; simp
+    split_ifs
+    · exact toInt_add_small n s (by omega) (by omega)
+    · rfl
+  have vE1 : E1.toInt = if e.toInt < 0 then n.toInt + e.toInt else e.toInt := by
+    rw [← hE1]; simp only [BitVec.slt]; simp
+    split_ifs
+    · exact toInt_add_small n e (by omega) (by omega)
+    · rfl
+  have vN1 : (n - 1#64).toInt = n.toInt - 1 := toInt_sub_one n (by omega)
+  unfold Go.bitcountClamp bitcountBounds
+  simp only [hS1, hE1]
+  simp only [BitVec.slt, BitVec.sle, decide_eq_true_eq, ← vS1, ← vE1]
+  simp only [BitVec.toInt_zero]
+  split_ifs <;> simp_all <;> omega
+
+/-- BITCOUNT of the model on a non-empty string, without the two recorded deviations, is: the bounds of
+    `bitcountBounds`, then the count of the set bits (bit mode) or of the set bits of the bytes (byte mode) between them -/
+theorem cmdBitCount_bounds (c : Ctx) (db : Db) (k b : Bytes) (e : Entry) (s t : Int) (m : Bool)
+    (hq1 : c.q.bitcountClamp = false)
+    (hl : db.live c.now k = some e) (hv : e.val = .str b) (hb : b.isEmpty = false) :
+    (cmdBitCount c db k (some (s, t, m))).reply =
+      match bitcountBounds (if m then (b.length : Int) * 8 else b.length) s t with
+      | none => .int 0
+      | some (a, z) =>
+        if m then vInt ((List.range (z - a + 1).toNat).filter fun j => bitAt b (a.toNat + j)).length
+        else vInt (((b.drop a.toNat).take (z - a + 1).toNat).foldl (fun acc x => acc + popcount8 x) 0) := by
+  obtain ⟨v, ex, id⟩ := e
+  simp only at hv; subst hv
+  unfold cmdBitCount bitcountBounds
+  simp only [hl, hb, hq1]
+  cases m <;> simp <;> split_ifs <;> simp_all [R.ok]
+
 end RedisEmu
